@@ -289,6 +289,10 @@ class _NP:
     # ---- constructors
     def array(self, x, dtype=None, copy=True):
         _use("array")
+        from .prelude_index import GenericElem, SymIndexSet, np_array_of_indices
+
+        if isinstance(x, (SymIndexSet, GenericElem)):
+            return np_array_of_indices(x)
         k = parse_dtype(dtype).kind if dtype is not None else None
         if _is_arr(x):
             r = x.copy()
@@ -682,6 +686,10 @@ class _NP:
 
     def unravel_index(self, indices, shape):
         _use("unravel_index")
+        from .prelude_index import GenericElem, SymIndexArr, np_unravel
+
+        if isinstance(indices, (SymIndexArr, GenericElem)):
+            return np_unravel(indices, shape)
         ind = as_array(indices)
         snap = ind.snapshot()
         shape = tuple(shape)
